@@ -59,12 +59,12 @@ Proof. exact (total_page_spec dops sops). Qed.
    open the current page index is below the page count (page 0 for an empty list), for every
    kind of list, every layout, dictionary and conversion oracle. *)
 Theorem C07_page_index_below_page_count_every_history : forall ops (e e' : editor D SY) pg act sel c,
-  Inv dops sops dict_ok ss0 e -> run dops sops conv e ops = Ok e' ->
+  Forall op_ok ops -> Inv dops sops dict_ok ss0 e -> run dops sops conv e ops = Ok e' ->
   st e' = Selecting pg act sel -> 1 <= o_per_page (opts (sh e')) -> candidates dops sops (sh e') sel = Ok c ->
   (c <> [] -> pg < pages_of (length c) (o_per_page (opts (sh e')))) /\ (c = [] -> pg = 0).
 Proof.
-  intros ops e e' pg act sel c I H Hst Hper Hc.
-  pose proof (run_inv dops sops conv dict_ok ok_lookup ok_add ok_update ok_remove alt_stable ss0 ss0_good ss0_fresh ops e e' I H) as [_ Ist].
+  intros ops e e' pg act sel c Hops I H Hst Hper Hc.
+  pose proof (run_inv dops sops conv dict_ok ok_lookup ok_add ok_update ok_remove alt_stable ss0 ss0_good ss0_fresh ops e e' Hops I H) as [_ Ist].
   rewrite Hst in Ist. destruct Ist as (_ & Hpg & _). specialize (Hpg Hper c Hc). split.
   - intros Hne. apply page_index_valid; [lia|]. destruct Hpg as [->|Hlt]; [|exact Hlt].
     destruct c; [contradiction | cbn; lia].
@@ -74,23 +74,23 @@ Qed.
 (* ... and the highlighted range of a phrase list is a non-empty range of the editor's CURRENT
    buffer (the buffer cannot change while the list is open) *)
 Theorem C07_range_inside_current_buffer_every_history : forall ops (e e' : editor D SY) pg act p,
-  Inv dops sops dict_ok ss0 e -> run dops sops conv e ops = Ok e' -> st e' = Selecting pg act (SelPhrase p) ->
+  Forall op_ok ops -> Inv dops sops dict_ok ss0 e -> run dops sops conv e ops = Ok e' -> st e' = Selecting pg act (SelPhrase p) ->
   ps_com p = inner (com (sh e')) /\ ps_begin p < ps_end p <= ce_len (com (sh e')).
 Proof.
-  intros ops e e' pg act p I H Hst.
-  pose proof (run_inv dops sops conv dict_ok ok_lookup ok_add ok_update ok_remove alt_stable ss0 ss0_good ss0_fresh ops e e' I H) as [_ Ist].
+  intros ops e e' pg act p Hops I H Hst.
+  pose proof (run_inv dops sops conv dict_ok ok_lookup ok_add ok_update ok_remove alt_stable ss0 ss0_good ss0_fresh ops e e' Hops I H) as [_ Ist].
   rewrite Hst in Ist. destruct Ist as (([Hlt Hle _] & Hcom) & _). unfold ce_len. rewrite <- Hcom. auto.
 Qed.
 
 (* ... it covers syllables only (so "the highlighted syllables" are exactly the symbols of the range and the
    key that is looked up has one syllable per symbol), and the position the list was opened at is a syllable *)
 Theorem C07_range_covers_syllables_only_every_history : forall ops (e e' : editor D SY) pg act p,
-  Inv dops sops dict_ok ss0 e -> run dops sops conv e ops = Ok e' -> st e' = Selecting pg act (SelPhrase p) ->
+  Forall op_ok ops -> Inv dops sops dict_ok ss0 e -> run dops sops conv e ops = Ok e' -> st e' = Selecting pg act (SelPhrase p) ->
   (forall k, ps_begin p <= k < ps_end p -> exists s, nth_error (symbols (inner (com (sh e')))) k = Some (SymSyl s)) /\
   length (range_key p) = ps_end p - ps_begin p.
 Proof.
-  intros ops e e' pg act p I H Hst.
-  pose proof (run_inv dops sops conv dict_ok ok_lookup ok_add ok_update ok_remove alt_stable ss0 ss0_good ss0_fresh ops e e' I H) as [_ Ist].
+  intros ops e e' pg act p Hops I H Hst.
+  pose proof (run_inv dops sops conv dict_ok ok_lookup ok_add ok_update ok_remove alt_stable ss0 ss0_good ss0_fresh ops e e' Hops I H) as [_ Ist].
   rewrite Hst in Ist. destruct Ist as (([Hlt Hle [Hsyl _ _]] & Hcom) & _). split.
   - intros k Hk. rewrite <- Hcom. exact (Hsyl k Hk).
   - unfold range_key. rewrite syl_prefix_all.
